@@ -242,15 +242,22 @@ InitCoord == /\ \E S \in InitSets : coords = SetToSortSeq(S, LexLt)
 \* position triples) that together use every vertex -- shared and unshared vertices, overlapping and elongated triangles
 NonDegenerate(V, t) == Cross(V[t[1]], V[t[2]], V[t[3]]) # 0
 TriplesOf(V) == { t \in { SetToSortSeq(s, <) : s \in kSubset(3, DOMAIN V) } : NonDegenerate(V, t) }
+\* the grid straddles the origin: negative and positive whole-number coordinates (rounding towards zero differs from
+\* rounding down only for negative numbers)
+GridAxis(n) == (-(n \div 2)) .. (n - 1 - (n \div 2))
 FreeInputs(f) ==
     UNION { LET V == SetToSortSeq(Vs, LexLt)
                 tr == TriplesOf(V)
             IN { [v |-> V, ix |-> SetToSortSeq(I, Lex3Lt)] :
                      I \in { J \in UNION { kSubset(n, tr) : n \in 2 .. (IF f[4] <= Cardinality(tr) THEN f[4] ELSE Cardinality(tr)) } :
                                 UNION { ToSet(t) : t \in J } = DOMAIN V } }
-          : Vs \in kSubset(f[3], (0 .. f[1] - 1) \X (0 .. f[2] - 1)) }
+          : Vs \in kSubset(f[3], GridAxis(f[1]) \X GridAxis(f[2])) }
+\* the triangles in fine units: one grid step is FreeUnit fine units, so that the midpoints of two up-samplings are
+\* representable (a grid step of one whole number has half- and quarter-integer midpoints)
+FreeUnit == 2 ^ MaxLevel
+ScaleV(V) == [k \in DOMAIN V |-> << FreeUnit * V[k][1], FreeUnit * V[k][2] >>]
 InitFree == /\ \E inp \in UNION { FreeInputs(f) : f \in FreeFamilies } :
-                  /\ free = FromVI(inp.v, inp.ix)
+                  /\ free = FromVI(ScaleV(inp.v), inp.ix)
                   /\ init = [c |-> << >>, fl |-> FALSE, v |-> inp.v, ix |-> inp.ix]
             /\ coords = << >> /\ flipped = FALSE /\ level = 0 /\ yoff = 0
             /\ last = "init" /\ prev = << >> /\ path = << >>
@@ -300,6 +307,30 @@ NeighborhoodVI ==
     /\ Dump(path')
     /\ UNCHANGED << coords, flipped, level, yoff, init >>
 
+\* abstract.py / array.py up_sample on a vertex/index array: the four midpoint children of every triangle
+UpSampleVI ==
+    /\ IsFree /\ last # "obs" /\ Count("nbr") = 0 /\ level < MaxLevel /\ Len(path) < 2 /\ Len(free) <= MaxLenUp
+    /\ free' = ChildrenAll(free)
+    /\ level' = level + 1
+    /\ prev' = free /\ last' = "up"
+    /\ path' = Append(path, Step("up", << >>, << >>))
+    /\ Dump(path')
+    /\ UNCHANGED << coords, flipped, yoff, init >>
+
+\* containing_indices on a vertex/index array: every point of the half-step lattice strictly inside some triangle
+QueriesVI ==
+    LET st == FreeUnit \div (2 ^ (level + 1))
+        xs == UNION { {free[k][1][1], free[k][2][1], free[k][3][1]} : k \in DOMAIN free }
+        ys == UNION { {free[k][1][2], free[k][2][2], free[k][3][2]} : k \in DOMAIN free }
+    IN { q \in { <<Min(xs) + a * st, Min(ys) + b * st>> : a \in 0 .. ((Max(xs) - Min(xs)) \div st), b \in 0 .. ((Max(ys) - Min(ys)) \div st) } :
+           \E k \in DOMAIN free : InOpen(q, free[k]) }
+ObserveVI ==
+    /\ IsFree /\ last \in {"init", "up"} /\ level < MaxLevel /\ Len(free) <= 2 * MaxLenObs
+    /\ last' = "obs"
+    /\ path' = Append(path, Step("obs", << >>, SetToSeq(QueriesVI)))
+    /\ Dump(path')
+    /\ UNCHANGED << coords, flipped, level, yoff, prev, init, free >>
+
 \* for_indexes: the index subsets explored
 SelFamily(n) ==
     IF n <= SelAllMax THEN (SUBSET (1 .. n)) \ {{}}
@@ -329,7 +360,7 @@ Observe ==
     /\ Dump(path')
     /\ UNCHANGED << coords, flipped, level, yoff, prev, init, free >>
 
-Next == UpSample \/ Neighborhood \/ NeighborhoodVI \/ Select \/ Observe
+Next == UpSample \/ Neighborhood \/ NeighborhoodVI \/ UpSampleVI \/ ObserveVI \/ Select \/ Observe
 Spec == Init /\ [][Next]_vars
 
 -----------------------------------------------------------------------------
@@ -343,14 +374,14 @@ LatticeShape == \A k \in DOMAIN coords : Equilateral(Tris[k]) /\ Area2(Tris[k]) 
 NewSet == last \in {"init", "up", "nbr"}
 LatticeDisjoint == NewSet /\ ~ IsFree => (\A i, j \in DOMAIN coords : i < j => coords[i] # coords[j]) /\ PairwiseDisjoint(Tris)
 \* midpoints stay on the fine lattice down to the last level
-MidpointsRepresentable == level < MaxLevel => \A k \in DOMAIN coords : Halvable(Tris[k])
+MidpointsRepresentable == level < MaxLevel /\ last \in {"init", "up"} => \A k \in DOMAIN Tris : Halvable(Tris[k])
 
 \* the parity-dependent child offsets are the midpoint subdivision ...
 UpIsMidpointSubdivision == last = "up" => SameBag(Tris, ChildrenAll(prev))
 \* ... the midpoint subdivision tiles exactly, quadruples the count, conserves the area, keeps the vertices ...
 MidpointSubdivisionTiles ==
     last = "up" => /\ \A k \in DOMAIN prev : TilesExactly(prev[k], Children(prev[k]), 1 .. 4)
-                   /\ Len(coords) = 4 * Len(prev)
+                   /\ Len(Tris) = 4 * Len(prev)
                    /\ TotalArea2(Tris) = TotalArea2(prev)
                    /\ (UNION {VSet(prev[k]) : k \in DOMAIN prev}) \subseteq (UNION {VSet(Tris[k]) : k \in DOMAIN Tris})
 \* ... and is accepted by the postcondition the trace specification applies to the implementation
@@ -387,5 +418,6 @@ ContainSound ==
         \A q \in ToSet(path[Len(path)].q) :
             /\ \A k \in DOMAIN Tris : (InOpen(q, Tris[k]) => BaryReports(q, Tris[k]))
                                       /\ (BaryReports(q, Tris[k]) => InClosed(q, Tris[k]))
-            /\ Cardinality({k \in DOMAIN Tris : InOpen(q, Tris[k])}) = 1
+            /\ LET n == Cardinality({k \in DOMAIN Tris : InOpen(q, Tris[k])})
+               IN IF IsFree THEN n >= 1 ELSE n = 1     \* (the triangles of an irregular array may overlap)
 =============================================================================
